@@ -9,7 +9,7 @@
 (* predicates after every call.  It collects violations instead of         *)
 (* blocking, so that one run reports all of them.                          *)
 (***************************************************************************)
-EXTENDS Wire, Abstract, Driver, Json, IOUtils
+EXTENDS Judge, Driver, Models, Json, IOUtils
 
 Rec == ndJsonDeserialize(IOEnv.TRACE)
 
@@ -26,266 +26,6 @@ Init == s = [l |-> 1, sc |-> NoScn, w |-> WireNew(1, 1, "rec", FALSE, FALSE), d 
              viol |-> <<>>, stat |-> Stat0, rowcap |-> 0, dd |-> [none |-> TRUE], drift |-> <<>>, ndrift |-> 0, ncmp |-> 0]
 
 ---------------------------------------------------------------------------
-V(r, props, what) == <<[id |-> r.id, i |-> r.i, name |-> r.name, props |-> props, what |-> what]>>
-Chk(ok, r, props, what) == IF ok THEN <<>> ELSE V(r, props, what)
-
-IsDrawTarget(n) == n \in {"draw_iter", "fill_solid", "fill_contiguous", "clear", "test_image"}
-IsDrawing(n) == IsDrawTarget(n) \/ n \in {"set_pixel", "set_pixels"}
-Kind(iface) == CASE iface \in {"spi", "rec"} -> "serial" [] iface \in {"p8", "rec_p8"} -> "p8" [] OTHER -> "p16"
-Unsupported(model, iface) ==
-  \/ model \in {"gc9107", "rm67162"} /\ Kind(iface) = "p16"
-  \/ model = "ili9486_565" /\ Kind(iface) = "serial"
-
-Elapsed120(us0, ns0, us1, ns1) == us1 - us0 > 120000 \/ (us1 - us0 = 120000 /\ ns1 >= ns0)
-Elapsed10us(us0, ns0, us1, ns1) == us1 - us0 > 10 \/ (us1 - us0 = 10 /\ ns1 >= ns0)
-
-\* which property a misbehaving call of this name is attributed to
-CallProps(sc, d, r) ==
-  LET n == r.name
-      base == CASE n \in {"set_pixel", "set_pixels"} -> {"C01"}
-                [] IsDrawTarget(n) -> {"C02"}
-                [] n = "init" -> {"C11"}
-                [] n = "model_init" -> {"C11"}
-                [] n = "set_orientation" -> {"C10"}
-                [] n \in {"scroll_region", "scroll_offset"} -> {"C16"}
-                [] n \in {"sleep", "wake"} -> {"C13"}
-                [] n \in {"xport.send_command", "xport.write_raw", "xport.send_pixels", "xport.send_repeated_pixel"}
-                     -> IF sc.cfg.iface = "spi" THEN {"C06"} ELSE {"C07"}
-                [] n = "bus.set_value" -> {"C07"}
-                [] OTHER -> {"X"}
-  IN base \cup (IF n = "test_image" THEN {"C19"} ELSE {})
-
-\* expected error path for a failure injected at a low-level operation of the given kind
-FailKind(op) == CASE op[1] = "spi" -> "Spi" [] op[1] = "spitx" -> "Spi" [] op[1] = "dc" -> "Dc" [] op[1] = "d" -> "Bus"
-                  [] op[1] = "wr" -> "Wr" [] op[1] = "rst" -> "ResetPin" [] op[1] \in {"cmd", "px", "rep"} -> "Rec"
-                  [] OTHER -> "?"
-OpOk(op) == CASE op[1] \in {"dc", "wr", "rst", "spi", "spitx"} -> op[3]
-              [] op[1] \in {"d", "cmd", "px"} -> op[4] [] op[1] = "rep" -> op[5] [] OTHER -> 1
-FirstFailed(ops) == LET bad == {i \in 1 .. Len(ops) : OpOk(ops[i]) # 1} IN
-                    IF bad = {} THEN 0 ELSE CHOOSE i \in bad : \A j \in bad : i <= j
-
----------------------------------------------------------------------------
-
----------------------------------------------------------------------------
-\* one driver call of a display scenario
-Cfg(sc) == sc.cfg
-Orient0(sc) == [rot |-> sc.cfg.rot, mir |-> sc.cfg.mir]
-
-ExpectedImg(sc, d, img, r) == AExpected(img, sc.cfg, d.orient, r.name, r.args)
-ArgsInBounds(sc, d, r) == AInBounds(sc.cfg, d.orient, r.name, r.args)
-
-FaultHere(sc, r) == \E j \in 1 .. Len(sc.faults) : sc.faults[j].call = r.i /\ sc.faults[j].k >= 1 /\ sc.faults[j].k <= r.nf
-FaultK(sc, r) == LET j == CHOOSE j \in 1 .. Len(sc.faults) : sc.faults[j].call = r.i IN sc.faults[j].k
-
-JudgeDrawing(sc, d, img, w0, w1, r) ==
-  LET cfg == sc.cfg
-      n == r.name
-      inb == ArgsInBounds(sc, d, r)
-      pre == (n \notin {"set_pixel", "set_pixels"}) \/ inb       \* raw calls only inside their precondition
-      exp == IF pre THEN ExpectedImg(sc, d, img, r) ELSE img
-      fb == FbView(w1.ctl)
-      pfb == (IF n \in {"set_pixel", "set_pixels"} \/ inb THEN {"C01"} ELSE {}) \cup
-             (IF IsDrawTarget(n) /\ ~inb THEN {"C02"} ELSE {}) \cup
-             (IF n = "draw_iter" /\ inb THEN {"C03"} ELSE {}) \cup
-             (IF n = "fill_contiguous" THEN {"C04"} ELSE {}) \cup
-             (IF d.reoriented THEN {"C10"} ELSE {}) \cup
-             (IF d.faulted THEN {"C12"} ELSE {}) \cup
-             (IF cfg.iface = "spi" THEN {"C06"} ELSE IF cfg.iface \in {"p8", "p16"} THEN {"C07"} ELSE {}) \cup
-             (IF sc.tag = "colour" THEN {"C05"} ELSE {}) \cup (IF sc.tag = "testimage" THEN {"C19"} ELSE {})
-      newflags == w1.ctl.flags \ w0.ctl.flags
-      wpp == WordsPerPixel(w1.ctl)
-      fr == FramingErrors(w0.ctl, w1.cmds, wpp, IsDrawTarget(n))
-      n2c == Num2C(w1.cmds)
-      vis == IF n \in {"fill_solid", "fill_contiguous"} THEN VisibleArea(cfg, d.orient, r.args.rect)
-             ELSE IF n = "clear" THEN 1 ELSE 0
-      usable == IF cfg.iface = "spi" /\ wpp > 0 THEN (cfg.buf \div wpp) * wpp ELSE 0
-      TxBad(i) == LET e == w1.cmds[i] IN e.op = 44 /\ usable > 0 /\ e.tx > (e.n \div usable) + 2
-  IN
-  IF ~pre THEN [img |-> fb, v |-> <<>>, skip |-> TRUE] ELSE
-  [img |-> exp, skip |-> FALSE,
-   v |-> Chk(r.res = "ok", r, CallProps(sc, d, r) \cup (IF inb THEN {"C01"} ELSE {}),
-             "drawing call did not return Ok with fault-free mocks: " \o r.res \o " " \o r.pmsg \o " " \o r.ploc)
-      \o Chk(r.res # "ok" \/ fb = exp, r, pfb, "framebuffer differs from the expected picture")
-      \o Chk(r.res # "ok" \/ \A c \in DOMAIN fb : InWindow(cfg, c), r,
-             IF IsDrawTarget(n) THEN {"C02"} ELSE {"C01"}, "a cell outside the panel window was modified")
-      \o Chk(newflags \cap {"oob_addr", "start_gt_end"} = {}, r,
-             (IF IsDrawTarget(n) THEN {"C02"} ELSE {}) \cup {"C08"},
-             "controller memory addressed outside the framebuffer / start > end")
-      \o Chk(r.res # "ok" \/ fr = "", r, {"C08"}, "framing: " \o fr)
-      \o Chk(r.res # "ok" \/ ~IsDrawTarget(n) \/ "overrun" \notin newflags, r, {"C08"}, "write pointer wrapped")
-      \o Chk(r.res # "ok" \/ "partial_pixel" \notin newflags, r, {"C08"}, "incomplete pixel in burst")
-      \o Chk(r.res # "ok" \/ n \notin {"fill_solid", "fill_contiguous", "clear"} \/ vis = 0 \/ (n2c = 1 /\ Num2A(w1.cmds) = 1),
-             r, {"C20"}, "a fill used more or fewer than one address-window set-up")
-      \o Chk(r.res # "ok" \/ n \notin {"fill_solid", "fill_contiguous"} \/ vis # 0 \/ n2c <= 1,
-             r, {"C20"}, "an invisible fill used more than one address-window set-up")
-      \o Chk(r.res # "ok" \/ n # "draw_iter" \/ ~cfg.batch \/ s.rowcap < 2 \/
-             n2c <= RunBursts(cfg, d.orient, r.args.px, s.rowcap),
-             r, {"C20"}, "draw_iter used more window set-ups than its runs split at the row capacity need")
-      \o Chk(r.res # "ok" \/ n # "draw_iter" \/ n2c <= NumInBox(cfg, d.orient, r.args.px),
-             r, {"C20"}, "draw_iter used more window set-ups than in-bounds pixels")
-      \o Chk(r.res # "ok" \/ \A i \in 1 .. Len(w1.cmds) : ~TxBad(i),
-             r, {"C20"}, "an SPI burst used more transactions than floor(b/usable)+1")
-      \o Chk(r.res # "ok" \/ n # "fill_contiguous" \/ r.args.colors.len >= 0 \/
-             (LET a == r.args.rect IN a[4] > (MaxInt - 1) \div Max2(a[3], 1) \/ r.x.pulled <= a[3] * a[4] + 1),
-             r, {"C04"}, "an unbounded colour source was pulled beyond the rectangle")]
-
----------------------------------------------------------------------------
-\* initialisation (C09, C11, C17)
-JudgeInit(sc, w0, w1, r) ==
-  LET cfg == sc.cfg
-      verdict == InitVerdict(cfg)
-      unsup == Unsupported(cfg.model, cfg.iface)
-      c == w1.ctl
-      okExpected == verdict = "ok" /\ ~unsup
-      resetOk ==
-        IF cfg.rst /\ r.name = "init" THEN
-             /\ Len(w1.rstlog) = 2 /\ w1.rstlog[1][1] = 0 /\ w1.rstlog[2][1] = 1
-             /\ Elapsed10us(w1.rstlog[1][2], w1.rstlog[1][3], w1.rstlog[2][2], w1.rstlog[2][3])
-             /\ w1.rstlog[2][4] = 0 /\ w1.busBeforeRstHigh = 0 /\ w1.rst = 1 /\ c.nsw = w0.ctl.nsw
-        ELSE IF r.name = "init" THEN
-             /\ Len(w1.cmds) >= 1 /\ w1.cmds[1].op = 1 /\ w1.cmds[1].n = 0
-             /\ Cardinality({i \in 1 .. Len(w1.cmds) : w1.cmds[i].op = 1}) = 1
-        ELSE TRUE
-  IN
-  IF FaultHere(sc, r) THEN <<>> ELSE
-  IF verdict # "ok" /\ r.name = "init" THEN
-       Chk(r.res = "err" /\ r.err = <<"InvalidConfiguration", verdict>>, r, {"C09"},
-           "init must reject this window with " \o verdict)
-    \o Chk(Len(r.ops) = 0, r, {"C09"}, "init touched the reset pin, the delay source or the bus before rejecting")
-  ELSE IF unsup THEN
-       Chk(r.res = "err" /\ r.err = <<"InvalidConfiguration", "UnsupportedInterface">>, r, {"C11"},
-           "an interface kind the model cannot drive must be refused with UnsupportedInterface")
-    \o Chk(\A i \in 1 .. Len(w1.cmds) : w1.cmds[i].op = 1, r, {"C11"},
-           "a model command was sent before the interface kind was refused")
-    \o Chk(r.name # "init" \/ resetOk, r, {"C17"}, "reset sequence malformed")
-  ELSE
-       Chk(r.res = "ok", r, {"C09", "C11"}, "init of a valid configuration failed: " \o r.res \o " " \o ToString(r.err) \o r.pmsg)
-    \o (IF r.res # "ok" THEN <<>> ELSE
-         Chk(~c.sleep, r, {"C11"}, "controller left asleep")
-      \o Chk(c.on, r, {"C11"}, "display not switched on")
-      \o Chk(c.madctl = MadctlOf(cfg.bgr, Orient0(sc), cfg.refv, cfg.refh), r, {"C11", "C14"},
-             "address mode in the controller differs from the encoding of the options")
-      \o Chk(c.colmod % 8 = ColmodFor(cfg.colour) % 8, r, {"C11", "C05"}, "interface pixel format does not match the colour type")
-      \o Chk(c.inv = cfg.inv, r, {"C11"}, "colour inversion differs from the option")
-      \o Chk(c.n2c = w0.ctl.n2c /\ c.ndata = w0.ctl.ndata /\ FbView(c) = FbView(w0.ctl), r, {"C11"}, "init wrote pixel memory")
-      \o Chk(c.tslpU >= 0 /\ Elapsed120(c.tslpU, c.tslpN, w1.us, w1.ns), r, {"C11", "C13"},
-             "init returned earlier than 120 ms after sleep-out")
-      \o Chk("sleep_spacing" \notin (c.flags \ w0.ctl.flags), r, {"C13"}, "sleep-in/out commands less than 120 ms apart")
-      \o Chk(resetOk, r, {"C17"}, "reset sequence malformed")
-      \o Chk(r.name # "init" \/ (r.obs.rot = cfg.rot /\ r.obs.mir = cfg.mir /\ r.obs.sleeping = FALSE
-                                   /\ r.obs.size = LogicalSize(cfg, Orient0(sc))), r, {"C10", "C13"},
-             "getters after init disagree with the options")
-      \o Chk(r.name # "model_init" \/ r.x.madctl = <<MadctlOf(cfg.bgr, Orient0(sc), cfg.refv, cfg.refh)>>, r, {"C11"},
-             "the address mode returned by Model::init differs from the one sent"))
-
-\* everything that is neither drawing nor init
-JudgeOther(sc, d, w0, w1, r) ==
-  LET cfg == sc.cfg  n == r.name  a == r.args  c == w1.ctl  cm == w1.cmds
-      One(op, p) == Len(cm) = 1 /\ cm[1].op = op /\ cm[1].n = Len(p) /\ cm[1].p = p
-      slpOk == \A i \in 1 .. Len(w1.slpAt) : Elapsed120(w1.slpAt[i][1], w1.slpAt[i][2], w1.us, w1.ns)
-  IN
-  Chk(r.res = "ok", r, CallProps(sc, d, r), "call failed with fault-free mocks: " \o r.res \o " " \o r.pmsg \o " " \o r.ploc)
-  \o (IF r.res # "ok" THEN <<>> ELSE
-  CASE n = "set_orientation" ->
-         LET o == [rot |-> a.rot, mir |-> a.mir] IN
-         Chk(r.obs.rot = a.rot /\ r.obs.mir = a.mir, r, {"C10"}, "reported orientation differs from the one set")
-      \o Chk(r.obs.size = LogicalSize(cfg, o), r, {"C10"}, "reported size differs from the size under the orientation set")
-      \o Chk(c.madctl = MadctlOf(cfg.bgr, o, cfg.refv, cfg.refh), r, {"C10", "C14"},
-             "address mode after set_orientation is not the encoding of (colour order, new orientation, refresh order)")
-      \o Chk(Len(cm) = 1 /\ cm[1].op = 54 /\ cm[1].n = 1, r, {"C10"}, "set_orientation must send exactly one set-address-mode command")
-    [] n = "scroll_region" ->
-         Chk(Len(cm) = 1 /\ cm[1].op = 51 /\ cm[1].n = 6, r, {"C16"}, "scroll region: not exactly one scroll-area definition")
-      \o Chk(c.tfa + c.vsa + c.bfa = cfg.H, r, {"C16"}, "scroll areas do not add up to the framebuffer height")
-      \o Chk(a.top + a.bottom > cfg.H \/ (c.tfa = a.top /\ c.bfa = a.bottom), r, {"C16"}, "fixed areas not passed through unchanged")
-    [] n = "scroll_offset" ->
-         Chk(One(55, Be16(a.v)), r, {"C16"}, "scroll offset not sent unchanged as one big-endian 16-bit parameter")
-    [] n = "tearing" ->
-         Chk(IF a.mode = "off" THEN One(52, <<>>) ELSE IF a.mode = "v" THEN One(53, <<0>>) ELSE One(53, <<1>>), r, {"C18"},
-             "tearing-effect command malformed")
-    [] n \in {"sleep", "wake"} ->
-         Chk(r.obs.sleeping = (n = "sleep"), r, {"C13"}, "is_sleeping() does not follow the call")
-      \o Chk(c.sleep = (n = "sleep"), r, {"C13"}, "controller sleep state differs from the call")
-      \o Chk(One(IF n = "sleep" THEN 16 ELSE 17, <<>>), r, {"C13"}, "sleep/wake must send exactly its one command")
-      \o Chk(slpOk, r, {"C13"}, "call returned earlier than 120 ms after the sleep-in/out command")
-    [] OTHER -> <<>>)
-  \o Chk("sleep_spacing" \notin (c.flags \ w0.ctl.flags), r, {"C13"}, "sleep-in/out commands less than 120 ms apart")
-
-\* checks that apply after every call of a display scenario
-JudgeAlways(sc, d1, w0, w1, r) ==
-  IF r.res # "ok" \/ r.name \in {"init", "model_init"} THEN <<>> ELSE
-     Chk(r.obs.sleeping = d1.sleeping, r, {"C13"}, "is_sleeping() changed by a call other than sleep/wake, or is wrong")
-  \* (a sleep/wake call that failed half-way may or may not have delivered its command: the controller's
-  \*  state is then unknown to the driver until the next successful sleep/wake)
-  \o Chk(d1.slpUnknown \/ w1.ctl.sleep = d1.sleeping, r, {"C13"}, "controller sleep state differs from is_sleeping()")
-  \o Chk(r.obs.rot = d1.orient.rot /\ r.obs.mir = d1.orient.mir /\ r.obs.size = LogicalSize(sc.cfg, d1.orient), r,
-         {"C10"}, "reported orientation/size differs from the last orientation set")
-  \o Chk(w1.ctl.madctl = MadctlOf(sc.cfg.bgr, d1.orient, sc.cfg.refv, sc.cfg.refh), r, {"C10"},
-         "controller address mode differs from the last orientation set")
-
----------------------------------------------------------------------------
-\* a call during which a low-level failure was injected (C12)
-JudgeFault(sc, d, w0, w1, r) ==
-  LET k == FirstFailed(r.ops)
-      kind == IF k = 0 THEN "?" ELSE FailKind(r.ops[k])
-      inner == IF kind = "ResetPin" THEN <<"ResetPin">> ELSE <<kind>>
-      path == IF r.name \in {"init", "model_init"} /\ kind # "ResetPin" THEN <<"Interface">> \o inner ELSE inner
-  IN
-     Chk(k > 0, r, {"X"}, "harness: planned fault did not fire")
-  \o Chk(r.res = "err", r, {"C12"}, "a failing pin/bus operation was not reported: " \o r.res \o " " \o r.pmsg)
-  \o Chk(r.res # "err" \/ (r.err = path /\ r.errk = FaultK(sc, r)), r, {"C12"},
-         "error not wrapped in the variant naming its source: expected " \o ToString(path) \o " got " \o ToString(r.err))
-  \o Chk(w1.after = 0, r, {"C12"}, "pin or bus operations were issued after the failure")
-  \o Chk(r.name \notin {"sleep", "wake"} \/ r.obs.sleeping = d.sleeping, r, {"C12", "C13"},
-         "sleep flag changed although the command failed")
-  \o Chk(r.name # "init" \/ Cardinality({i \in 1 .. Len(w1.cmds) : w1.cmds[i].op = 1}) <= 1, r, {"C12", "C17"},
-         "the software reset was sent more than once")
-
----------------------------------------------------------------------------
-\* transports addressed directly (C06, C07, C20)
-Flatten2(px) == LET n == Len(px) IN IF n = 0 THEN <<>> ELSE
-                LET m == Len(px[1]) IN [i \in 1 .. n * m |-> px[((i - 1) \div m) + 1][((i - 1) % m) + 1]]
-First16(q) == IF Len(q) <= 16 THEN q ELSE SubSeq(q, 1, 16)
-
-JudgeXport(sc, w0, w1, r) ==
-  LET cfg == sc.cfg  n == r.name  a == r.args  c == w1.ctl  cm == w1.cmds
-      P == IF cfg.iface = "spi" THEN {"C06"} ELSE {"C07"}
-      isSpi == cfg.iface = "spi"
-      cnt == IF n = "xport.send_repeated_pixel" THEN a.count[1] * 65536 + a.count[2] ELSE 0
-      expWords == CASE n = "xport.send_pixels" -> Flatten2(a.px)
-                    [] n = "xport.send_repeated_pixel" -> RepWords(a.pixel, cnt)
-                    [] OTHER -> <<>>
-      nb == Len(expWords)
-      usable == IF isSpi /\ n # "xport.send_command" /\ n # "xport.write_raw" THEN (cfg.buf \div a.n) * a.n ELSE 1
-      noCmd == \A i \in 1 .. Len(cm) : cm[i].op = -1
-      lastWord == IF nb > 0 THEN expWords[nb]
-                  ELSE IF n \in {"xport.send_command", "xport.write_raw"} THEN
-                       (IF Len(a.params) > 0 THEN a.params[Len(a.params)] ELSE a.op)
-                  ELSE -1
-  IN
-  Chk(r.res = "ok", r, P, "transport call did not return Ok: " \o r.res \o " " \o r.pmsg \o " " \o r.ploc)
-  \o (IF r.res # "ok" THEN <<>> ELSE
-  (CASE n \in {"xport.send_command", "xport.write_raw"} ->
-         Chk(Len(cm) = 1 /\ cm[1].op = a.op /\ cm[1].n = Len(a.params) /\ cm[1].p = First16(a.params), r, P,
-             "command: the words on the bus are not exactly the instruction (D/C low) followed by the parameters (D/C high)")
-      \o Chk(a.op = 44 \/ c.rm \/ c.par = a.params, r, P, "parameter bytes differ from the ones given")
-      \o Chk(a.op # 44 \/ c.burst = a.params, r, P, "parameter bytes differ from the ones given")
-    [] OTHER ->
-         Chk(noCmd, r, P, "a command byte (D/C low) appeared inside pixel data")
-      \o Chk(c.burst = w0.ctl.burst \o expWords, r, P, "the data words on the bus are not exactly the pixel words, in order"))
-  \o Chk(w1.wflags \cap {"dc_unknown", "sampled_unknown", "command_gt_255", "repeated_command_strobe"} = {}, r, P,
-         "undriven or misused line: " \o ToString(w1.wflags))
-  \o Chk(~isSpi \/ w1.ntx <= nb + Len(cm) + 16, r, {"C06"}, "unbounded number of bus transactions")
-  \o Chk(~isSpi \/ n \in {"xport.send_command", "xport.write_raw"} \/ w1.ntx <= (nb \div usable) + 1, r, {"C20"},
-         "an SPI burst used more transactions than floor(b/usable)+1")
-  \o Chk(isSpi \/ lastWord < 0 \/ (BusWord(w1) = lastWord /\ ~BusUnknown(w1)), r, {"C07"},
-         "the data pins do not show the last word written"))
-
-JudgeBus(sc, w0, w1, r) ==
-  IF r.res = "ok" THEN
-     Chk(BusWord(w1) = r.args.v /\ ~BusUnknown(w1), r, {"C07"}, "after a successful set_value the data pins do not show the value")
-  ELSE Chk(r.res = "err" /\ FirstFailed(r.ops) > 0, r, {"C07"}, "set_value failed without a failing pin: " \o r.res \o " " \o r.pmsg)
-       \o Chk(w1.after = 0, r, {"C07", "C12"}, "pin operations were issued after the failure")
-
 ---------------------------------------------------------------------------
 Step(r) ==
   IF r.k = "scn" THEN
@@ -326,7 +66,7 @@ Step(r) ==
      [s EXCEPT !.l = @ + 1, !.w = w1, !.img = FbView(w1.ctl), !.stat = st1,
                !.viol = @ \o Chk(r.res = "ok", r, {"C19", "C02"}, "test image: " \o r.res \o " " \o r.pmsg \o " " \o r.ploc)]
   ELSE IF IsDrawing(r.name) THEN
-     LET j == JudgeDrawing(sc, d, s.img, w0, w1, r)
+     LET j == JudgeDrawing(sc, d, s.img, w0, w1, r, s.rowcap)
          img1 == IF r.res = "ok" THEN j.img ELSE FbView(w1.ctl)
          inb == ArgsInBounds(sc, d, r)
      IN [s EXCEPT !.l = @ + 1, !.w = w1, !.img = img1,
@@ -351,7 +91,19 @@ NoRst(ops) == SelectSeq(ops, LAMBDA op : op[1] # "rst")
 WithDrift(s1, r) ==
   IF r.k # "call" \/ ~IsRec(s.sc) THEN s1
   ELSE IF r.name = "init" THEN
-       [s1 EXCEPT !.dd = IF r.res = "ok" THEN DNew(s.sc.cfg, Orient0(s.sc)) ELSE [none |-> TRUE]]
+       LET cfg == s.sc.cfg
+           m == MadctlFromOptions(cfg, Orient0(s.sc))
+           prog == IF cfg.model \in ModelNames THEN Concrete(cfg.model, m, cfg.inv)
+                   ELSE <<<<"dly", 5000, 0>>, <<"cmd", 17, <<>>, 1>>, <<"dly", 120000, 0>>, <<"cmd", 54, <<m>>, 1>>,
+                          <<"cmd", IF cfg.inv THEN 33 ELSE 32, <<>>, 1>>, <<"cmd", 58, <<ColmodFor(cfg.colour)>>, 1>>,
+                          <<"cmd", 41, <<>>, 1>>>>
+           e == (IF cfg.rst THEN <<<<"dly", 10, 0>>>> ELSE <<<<"cmd", 1, <<>>, 1>>>>) \o prog
+           cmp == r.res = "ok" /\ ~FaultHere(s.sc, r)
+           same == NoRst(r.ops) = e
+       IN [s1 EXCEPT !.dd = IF r.res = "ok" THEN DNew(cfg, Orient0(s.sc)) ELSE [none |-> TRUE],
+                     !.ncmp = IF cmp THEN @ + 1 ELSE @,
+                     !.ndrift = IF cmp /\ ~same THEN @ + 1 ELSE @,
+                     !.drift = IF ~cmp \/ same \/ Len(@) >= 20 THEN @ ELSE Append(@, [id |-> r.id, i |-> r.i, name |-> r.name])]
   ELSE IF "none" \in DOMAIN s.dd \/ FaultHere(s.sc, r) \/ r.name \in {"test_image", "raw"} \/ s.d.skip \/ s1.d.skip THEN s1
   ELSE LET e == DCall(s.dd, r.name, r.args)
            same == IF e.panic THEN r.res = "panic" ELSE r.res = "ok" /\ NoRst(r.ops) = e.ops
@@ -458,7 +210,7 @@ Step(r) ==
      [s EXCEPT !.l = @ + 1, !.w = w1, !.img = FbView(w1.ctl), !.stat = st1,
                !.viol = @ \o Chk(r.res = "ok", r, {"C19", "C02"}, "test image: " \o r.res \o " " \o r.pmsg \o " " \o r.ploc)]
   ELSE IF IsDrawing(r.name) THEN
-     LET j == JudgeDrawing(sc, d, s.img, w0, w1, r)
+     LET j == JudgeDrawing(sc, d, s.img, w0, w1, r, s.rowcap)
          img1 == IF r.res = "ok" THEN j.img ELSE FbView(w1.ctl)
          inb == ArgsInBounds(sc, d, r)
      IN [s EXCEPT !.l = @ + 1, !.w = w1, !.img = img1,
@@ -483,7 +235,19 @@ NoRst(ops) == SelectSeq(ops, LAMBDA op : op[1] # "rst")
 WithDrift(s1, r) ==
   IF r.k # "call" \/ ~IsRec(s.sc) THEN s1
   ELSE IF r.name = "init" THEN
-       [s1 EXCEPT !.dd = IF r.res = "ok" THEN DNew(s.sc.cfg, Orient0(s.sc)) ELSE [none |-> TRUE]]
+       LET cfg == s.sc.cfg
+           m == MadctlFromOptions(cfg, Orient0(s.sc))
+           prog == IF cfg.model \in ModelNames THEN Concrete(cfg.model, m, cfg.inv)
+                   ELSE <<<<"dly", 5000, 0>>, <<"cmd", 17, <<>>, 1>>, <<"dly", 120000, 0>>, <<"cmd", 54, <<m>>, 1>>,
+                          <<"cmd", IF cfg.inv THEN 33 ELSE 32, <<>>, 1>>, <<"cmd", 58, <<ColmodFor(cfg.colour)>>, 1>>,
+                          <<"cmd", 41, <<>>, 1>>>>
+           e == (IF cfg.rst THEN <<<<"dly", 10, 0>>>> ELSE <<<<"cmd", 1, <<>>, 1>>>>) \o prog
+           cmp == r.res = "ok" /\ ~FaultHere(s.sc, r)
+           same == NoRst(r.ops) = e
+       IN [s1 EXCEPT !.dd = IF r.res = "ok" THEN DNew(cfg, Orient0(s.sc)) ELSE [none |-> TRUE],
+                     !.ncmp = IF cmp THEN @ + 1 ELSE @,
+                     !.ndrift = IF cmp /\ ~same THEN @ + 1 ELSE @,
+                     !.drift = IF ~cmp \/ same \/ Len(@) >= 20 THEN @ ELSE Append(@, [id |-> r.id, i |-> r.i, name |-> r.name])]
   ELSE IF "none" \in DOMAIN s.dd \/ FaultHere(s.sc, r) \/ r.name \in {"test_image", "raw"} \/ s.d.skip \/ s1.d.skip THEN s1
   ELSE LET e == DCall(s.dd, r.name, r.args)
            same == IF e.panic THEN r.res = "panic" ELSE r.res = "ok" /\ NoRst(r.ops) = e.ops
